@@ -86,34 +86,39 @@ Definition C10_flush_no_panic_statement : Prop :=
   forall C nd nq sched st, crun C sched (cinit C nd nq) = Some st -> flush_panicked st = false.
 
 (* F14a: a query for a column the merged partition lacks, issued after Table::compact and before
-   prepare_compact; and a query still holding merged-away partitions after prepare_compact *)
+   prepare_compact; a query still holding merged-away partitions after prepare_compact; F14b: a query for a
+   PRESENT column of a freshly registered partition whose columns were evicted before persist_partitions *)
 Theorem C10_query_no_panic_refuted :
   (exists st, crun Cw witness_not_yet (cinit Cw 0 1) = Some st /\ query_panicked st = true) /\
   (exists st, crun Cw witness_no_longer (cinit Cw 2 1) = Some st /\ query_panicked st = true) /\
+  (exists st, crun Cw witness_evicted_query (cinit Cw 0 1) = Some st /\ query_panicked st = true) /\
   ~ C10_query_no_panic_statement.
 Proof.
-  split; [exact witness_not_yet_panics|split; [exact witness_no_longer_panics|]].
+  split; [exact witness_not_yet_panics|split; [exact witness_no_longer_panics|split; [exact witness_evicted_query_panics|]]].
   intro S. destruct witness_not_yet_panics as (st & R & P). rewrite (S _ _ _ _ _ R) in P. discriminate.
 Qed.
 
 (* F14: a query inserts a placeholder handle into the freshly registered partition; the flush thread unwraps it *)
 Theorem C10_flush_no_panic_refuted :
   (exists st, crun Cw witness_placeholder (cinit Cw 0 1) = Some st /\ flush_panicked st = true) /\
+  (exists st, crun Cw witness_evicted_flush (cinit Cw 0 1) = Some st /\ flush_panicked st = true) /\
   ~ C10_flush_no_panic_statement.
 Proof.
-  split; [exact witness_placeholder_panics|].
+  split; [exact witness_placeholder_panics|split; [exact witness_evicted_flush_panics|]].
   intro S. destruct witness_placeholder_panics as (st & R & P). rewrite (S _ _ _ _ _ R) in P. discriminate.
 Qed.
 
-(* guarded: as long as queries only reference columns that every batch carries (KnownClass = some query
-   references a column outside C), neither a query nor the flush thread panics, for all schedules *)
+(* guarded: as long as queries only reference columns that every batch carries and nothing is evicted
+   (KnownClass = some query references a column outside C, or the schedule contains an eviction), neither a
+   query nor the flush thread panics, for all schedules *)
 Theorem C10_no_panic_guarded :
   forall C nd nq sched st,
-    (forall c, In c (sched_cols sched) -> In c C) ->
+    (forall c, In c (sched_cols sched) -> In c C) -> sched_evicts sched = false ->
     crun C sched (cinit C nd nq) = Some st ->
     query_panicked st = false /\ flush_panicked st = false.
 Proof.
-  intros C nd nq sched st HC H. apply (cinv_no_panic C). eapply cinv_run; [apply cinv_init|exact HC|exact H].
+  intros C nd nq sched st HC HE H. apply (cinv_no_panic C).
+  eapply cinv_run; [apply cinv_init|exact HC|exact HE|exact H].
 Qed.
 
 (* ---------------------------------------------------------------------------------------------- *)
